@@ -14,6 +14,8 @@ import HopModel.Driver.C06
 import HopModel.Driver.C07
 import HopModel.Driver.C08
 import HopModel.Driver.Mux
+import HopModel.Driver.C17
+import HopModel.Driver.C16
 
 def main (args : List String) : IO UInt32 := do
   match args with
@@ -42,6 +44,10 @@ def main (args : List String) : IO UInt32 := do
   | "C09" :: rest => Driver.Mux.main rest; return 0
   | "C11" :: rest => Driver.Mux.main rest; return 0
   | "C09late" :: rest => Driver.Mux.mainLate rest; return 0
+  | "C16" :: rest => Driver.C16.main rest; return 0
+  | "C17q" :: rest => Driver.C17.mainQ rest; return 0
+  | "C17lin" :: rest => Driver.C17.mainLin rest; return 0
+  | "C17race" :: rest => Driver.C17.mainLin rest; return 0
   | _ =>
     IO.eprintln "usage: hopmodel <Cxx> [--spec] < ops.txt > model.txt"
     return 2
